@@ -256,9 +256,11 @@ type Case struct {
 	// determinism-only case: nothing but the nondet observable is compared
 	NDOnly bool `json:"ndonly,omitempty"`
 	// history case: an earlier Parse(Pre) ran on the same object before the observed Parse(Argv)
-	HasPre bool  `json:"haspre,omitempty"`
-	Pre    []Tok `json:"pre,omitempty"`
-	Res    Res   `json:"res"`
+	HasPre bool `json:"haspre,omitempty"`
+	// the earlier Parse ran before the help command / option was declared (a two-pass program)
+	PreEarly bool  `json:"preearly,omitempty"`
+	Pre      []Tok `json:"pre,omitempty"`
+	Res      Res   `json:"res"`
 }
 
 func (c *Cfg) Normalize() {
